@@ -34,7 +34,9 @@ GEN_JSON = os.path.join(GEN_DIR, "AncRegistry.json")
 WK_FEATS = {"temp": 1, "fl1_max": 2, "fl2_max": 3, "fl3_max": 4,
             "emodulus": 5, "bg_off": 6, "ml_class": 7, "time": 8,
             "frame": 9, "area_um": 10, "deform": 11, "fl1_max_ctc": 12,
-            "fl2_max_ctc": 13, "fl3_max_ctc": 14}
+            "fl2_max_ctc": 13, "fl3_max_ctc": 14, "ml_score_abc": 15,
+            "ml_score_xyz": 16, "image": 17, "image_bg": 18, "mask": 19,
+            "bright_bc_avg": 20}
 WK_KEYS = {("calculation", "emodulus lut"): 1,
            ("calculation", "emodulus medium"): 2,
            ("calculation", "emodulus temperature"): 3,
